@@ -90,6 +90,7 @@ mod schema {
 pub mod verif {
     pub use super::{
         bucket::KBucketEntry,
+        config::VERIF_DEFAULT_MAX_MESSAGE_SIZE,
         message::KademliaMessage,
         query::{QueryAction, QueryEngine},
         record::ProviderRecord,
